@@ -260,25 +260,25 @@ func runProperty(p *PropertyDef, worlds []*World, tier string, seed int, kf *Kno
 	// evidence
 	samples := pickSamples(obs)
 	cov := map[string]interface{}{
-		"explanation": p.Explain,
-		"evaluations": len(obs),
+		"explanation":         p.Explain,
+		"evaluations":         len(obs),
 		"distinct_nontrivial": len(nontrivial),
-		"rule": "one obligation per (rule, construct) found in the SSA of /repo's current tree; non-trivial = the obligation needed a dataflow, dominance, provenance or constant-evaluation argument (not a syntactically constant operand)",
-		"samples": samples,
-		"obligations": len(obs),
-		"discharged": len(obs) - nViol - nKnown - nUndec,
-		"known_findings": nKnown,
-		"undecided": nUndec,
-		"rules": stats,
-		"functions_analysed": funcsAnalysed,
-		"call_sites": callSites,
-		"configs": archsOf(worlds),
-		"files": worlds[0].Files,
-		"not_decided": p.NotDecided,
-		"checker_cmd": fmt.Sprintf("bin/apdlint -repo %s -property %s -tier %s", repo, p.ID, tier),
-		"trusted_base": []string{"go/types + go/ssa model of the program (x/tools v0.29.0)", "hand-written mod/ref table for math/big.Int methods", "hand summaries of the unsafe helpers (*BigInt).inner and noescape"},
-		"exhaustive": true,
-		"load_s": loadS,
+		"rule":                "one obligation per (rule, construct) found in the SSA of /repo's current tree; non-trivial = the obligation needed a dataflow, dominance, provenance or constant-evaluation argument (not a syntactically constant operand)",
+		"samples":             samples,
+		"obligations":         len(obs),
+		"discharged":          len(obs) - nViol - nKnown - nUndec,
+		"known_findings":      nKnown,
+		"undecided":           nUndec,
+		"rules":               stats,
+		"functions_analysed":  funcsAnalysed,
+		"call_sites":          callSites,
+		"configs":             archsOf(worlds),
+		"files":               worlds[0].Files,
+		"not_decided":         p.NotDecided,
+		"checker_cmd":         fmt.Sprintf("bin/apdlint -repo %s -property %s -tier %s", repo, p.ID, tier),
+		"trusted_base":        []string{"go/types + go/ssa model of the program (x/tools v0.29.0)", "hand-written mod/ref table for math/big.Int methods", "hand summaries of the unsafe helpers (*BigInt).inner and noescape"},
+		"exhaustive":          true,
+		"load_s":              loadS,
 	}
 	if selfNote != "" {
 		cov["self_test"] = selfNote
